@@ -306,7 +306,8 @@ theorem makeNotLinked_sem {p : Part} (hp : p.WF) {sp : Params} {base : Base} (hs
     rw [hreq]
     by_cases hr : (paramSem p.params).required.isSome = true
     · simp [hr, toKind, kindOf, Err.isCmdline, Err.cls]
-    simp only [hr, Bool.false_eq_true, if_false, Bool.not_false, true_and, Bool.true_and]
+    simp only [hr, Bool.false_eq_true, if_false, Bool.not_false, true_and, Bool.true_and, and_false]
+    unfold buildPart
     have hfaNone : Params.get (paramDict p.params) .forceAnywhere = none := paramDict_get_none _ _ (by intro n; cases n <;> simp [PName.key])
     have hreqNone : postGet (paramDict p.params) .required = none := by
       rw [← hsr]; cases h : (paramSem p.params).required with
@@ -331,6 +332,79 @@ theorem makeNotLinked_sem {p : Part} (hp : p.WF) {sp : Params} {base : Base} (hs
             E.den * (if E.ge1 = true ∧ nonN S ≠ 0 then nonN S else 1) < E.numer
         · simp only [h2, and_self, if_true]; simp [toKind, kindOf, Err.isCmdline, Err.cls]
         · simp only [h2, if_false]; simp [toKind]
-    all_goals sorry
+          cases (paramSem p.params).o <;> rfl
+    all_goals
+      have hk : ∀ k, k ≠ Key.anywhere → k ≠ Key.forceAnywhere →
+          Params.get ps' k = aGet (paramDict p.params) (expandRuns p.runs).length k := by
+        intro k h1 h2
+        rw [hget]
+        simp only [h1, if_false]
+        by_cases hcond : (paramSem p.params).anywhere = true ∧ (cls = .front ∨ cls = .back ∨ cls = .rightmostFront)
+        · rw [if_pos hcond]
+          cases aGet (paramDict p.params) (expandRuns p.runs).length k with
+          | none => simp [h2]
+          | some v => rfl
+        · rw [if_neg hcond]
+    · -- max_errors
+      rw [Params.get_update, hk _ (by decide) (by decide), hsp.e]
+      simp only [aGet, ← hse]
+      cases (paramSem p.params).e <;> rfl
+    · -- min_overlap
+      rw [Params.get_update, hk _ (by decide) (by decide), hsp.o]
+      simp only [aGet, ← hso]
+      have hl : (normalise (expandRuns p.runs)).length = (expandRuns p.runs).length := by simp [normalise]
+      rw [hl]
+      cases (paramSem p.params).o <;> simp [clampV]
+    · -- indels
+      rw [Params.get_update, hk _ (by decide) (by decide), hsp.indels]
+      simp only [aGet, ← hsi]
+      cases (paramSem p.params).indels <;> rfl
+    · rw [Params.get_update, hk _ (by decide) (by decide), hsp.rw]
+      simp [aGet, postGet, paramDict_get_none _ _ (by intro n; cases n <;> simp [PName.key] : ∀ n : PName, n.key ≠ Key.readWildcards)]
+    · rw [Params.get_update, hk _ (by decide) (by decide), hsp.aw]
+      simp [aGet, postGet, paramDict_get_none _ _ (by intro n; cases n <;> simp [PName.key] : ∀ n : PName, n.key ≠ Key.adapterWildcards)]
+    · -- force_anywhere
+      unfold Params.flag
+      rw [Params.get_update, hget, hsp.other _ (by decide)]
+      by_cases hcond : (paramSem p.params).anywhere = true ∧ (cls = .front ∨ cls = .back ∨ cls = .rightmostFront)
+      · simp only [hcond, and_self, if_true]
+        simp only [aGet, postGet, hfaNone]
+        obtain ⟨h1, h2⟩ := hcond
+        rcases h2 with rfl | rfl | rfl <;> simp [h1, Value.truthy, Value.numer]
+      · simp only [hcond, if_false, aGet, postGet, hfaNone]
+        cases ha : (paramSem p.params).anywhere
+        · simp
+        · have : ¬ (cls = .front ∨ cls = .back ∨ cls = .rightmostFront) := fun h => hcond ⟨ha, h⟩
+          simp only [not_or] at this
+          simp [this.1, this.2.1, this.2.2]
+    · -- no unexpected keyword
+      intro k hbadk
+      have hbad2 : kwAllowed .anywhere k = false := by cases k <;> simp [kwAllowed] at hbadk ⊢
+      rw [Params.get_update, hget, hsp.other k hbad2]
+      have hnone : (if k = Key.anywhere then none else aGet (paramDict p.params) (expandRuns p.runs).length k) = none := by
+        cases k <;> simp [kwAllowed] at hbad2 <;> (simp [aGet, hreqNone] <;> simp [postGet, hfaNone])
+      rw [hnone]
+      by_cases hcond : (paramSem p.params).anywhere = true ∧ (cls = .front ∨ cls = .back ∨ cls = .rightmostFront)
+      · rw [if_pos hcond]
+        by_cases hkf : k = Key.forceAnywhere
+        · exfalso
+          rw [hkf] at hbadk
+          obtain ⟨_, h2⟩ := hcond
+          rcases h2 with h2 | h2 | h2 <;> (rw [h2] at hbadk; simp [kwAllowed] at hbadk)
+        · simp [hkf]
+      · rw [if_neg hcond]
+    · exact hanchIff
+    · rw [hAs]; exact hp.2.2.2.1
+    · rw [hAs]; exact seq_iupac hp
+    · cases ho2 : (paramSem p.params).o with
+      | none => exact hsp.oint
+      | some v =>
+        simp only
+        split
+        · rfl
+        · have hv : Params.get (paramDict p.params) .minOverlap = some v := by
+            have : postGet (paramDict p.params) .minOverlap = some v := by rw [← hso]; exact ho2
+            exact this
+          exact paramDict_o_int hp.2.2.1 hv
 
 end Cutadapt.ParserProofs
